@@ -298,26 +298,53 @@ def authEnabled : Route → Bool
 
 /-! ## The caller -/
 
-/-- What `APIHandler.prepare` can see of the caller. `valid l`: an Authorization header that
-`parse_auth_header` accepts for the user of level `l` (what makes a header valid is property C10). -/
-inductive Auth
-  | noHeader (adminPasswordEmpty : Bool)
+/-- Which of the three consumer passwords of the device are empty (hash = EMPTY_PASSWORD_HASH). -/
+structure Passwords where
+  adminEmpty    : Bool
+  normalEmpty   : Bool
+  viewonlyEmpty : Bool
+  deriving DecidableEq, Repr
+
+def Passwords.allSet : Passwords := ⟨false, false, false⟩
+
+def Passwords.all : List Passwords :=
+  [⟨false, false, false⟩, ⟨false, false, true⟩, ⟨false, true, false⟩, ⟨false, true, true⟩,
+   ⟨true, false, false⟩, ⟨true, false, true⟩, ⟨true, true, false⟩, ⟨true, true, true⟩]
+
+/-- The Authorization header as `prepare` sees it. `valid l`: a header that `parse_auth_header` accepts for the
+user of level `l` (what makes a header valid is property C10). -/
+inductive Cred
+  | noHeader
   | invalid
   | valid (l : Level)
   deriving DecidableEq, Repr
 
-/-- `APIHandler.prepare`. -/
-def levelOf : Auth → Level
-  | .noHeader true => .admin          -- 'authenticating request as admin due to empty admin password'
-  | .noHeader false => .none
-  | .invalid => .none
+/-- What `APIHandler.prepare` can see: the password configuration of the device and the caller's credentials. -/
+structure Auth where
+  pw   : Passwords
+  cred : Cred
+  deriving DecidableEq, Repr
+
+/-- `APIHandler.prepare`: a request without Authorization header is admin iff the ADMIN password is empty —
+whatever the normal and view-only passwords are; an invalid header is level none whatever the passwords. -/
+def levelOf (a : Auth) : Level :=
+  match a.cred with
+  | .noHeader => if a.pw.adminEmpty then .admin   -- 'authenticating request as admin due to empty admin password'
+                 else .none                        -- 'missing authorization header'
+  | .invalid => .none                              -- AuthError: return before any level is granted
   | .valid l => l
 
 /-- `prepare` got past the authentication step (it then validates the Session-Id header). -/
-def Auth.authenticated : Auth → Bool
-  | .noHeader e => e
+def Auth.authenticated (a : Auth) : Bool :=
+  match a.cred with
+  | .noHeader => a.pw.adminEmpty
   | .invalid => false
   | .valid _ => true
+
+/-- Shorthands (all three passwords set unless said otherwise). -/
+def Auth.noHeader (adminPasswordEmpty : Bool) : Auth := ⟨⟨adminPasswordEmpty, false, false⟩, .noHeader⟩
+def Auth.invalid : Auth := ⟨Passwords.allSet, .invalid⟩
+def Auth.valid (l : Level) : Auth := ⟨Passwords.allSet, .valid l⟩
 
 /-- State of the request body as `call_api_func` sees it (only consulted for POST/PATCH/PUT). -/
 inductive Body
